@@ -278,12 +278,27 @@ def oracle(c):
         if M.shape[1] != start:
             return f"{c['formula']!r}: group matrix has {M.shape[1]} columns, slices cover {start}"
     # ---- configuration
-    try:
-        formulae.config["EVAL_UNSEEN_CATEGORIES"] = "bogus"
-        formulae.config["EVAL_UNSEEN_CATEGORIES"] = "error"
-        return "config accepted the value 'bogus'"
-    except ValueError:
-        pass
+    before = formulae.config["EVAL_UNSEEN_CATEGORIES"]
+    for bad in ("bogus", "", "warn", "err", "ing", "Error", "ERROR", " error", "error ", "warning, ", "error, warning",
+                None, 0, True, ("error",)):
+        try:
+            formulae.config["EVAL_UNSEEN_CATEGORIES"] = bad
+        except Exception:  # noqa
+            if formulae.config["EVAL_UNSEEN_CATEGORIES"] != before:
+                formulae.config["EVAL_UNSEEN_CATEGORIES"] = before
+                return f"config refused {bad!r} but changed its value"
+            continue
+        formulae.config["EVAL_UNSEEN_CATEGORIES"] = before
+        return f"config accepted the undocumented value {bad!r}"
+    for good in MODES:
+        try:
+            formulae.config["EVAL_UNSEEN_CATEGORIES"] = good
+            if formulae.config["EVAL_UNSEEN_CATEGORIES"] != good:
+                return f"config did not store the documented value {good!r}"
+        except Exception as e:  # noqa
+            return f"config refused the documented value {good!r} ({type(e).__name__})"
+        finally:
+            formulae.config["EVAL_UNSEEN_CATEGORIES"] = before
     try:
         formulae.config["NO_SUCH_KEY"] = "error"
         return "config accepted an unknown key"
